@@ -194,6 +194,9 @@ enum Mutn {
     Method,
     BodyByte(usize),
     BodyAppend,
+    /// a body attached to a request signed for the empty payload, with no Content-Length at all (chunked transfer) / with 0
+    BodyAttachedWithoutContentLength,
+    BodyAttachedContentLengthZero,
     BodyTruncate,
     SigDigit(usize),
     SigLength(usize),
@@ -234,6 +237,8 @@ impl Mutn {
             Mutn::Method => "method",
             Mutn::BodyByte(_) => "body-byte",
             Mutn::BodyAppend => "body-append",
+            Mutn::BodyAttachedWithoutContentLength => "body-attached-without-content-length",
+            Mutn::BodyAttachedContentLengthZero => "body-attached-content-length-zero",
             Mutn::BodyTruncate => "body-truncate",
             Mutn::SigDigit(_) => "signature-digit",
             Mutn::SigLength(_) => "signature-length",
@@ -311,6 +316,10 @@ fn mutations(b: &Built, base: &Base) -> Vec<Mutn> {
             m.push(Mutn::BodyByte(i));
         }
         m.push(Mutn::BodyAppend);
+        if b.body.is_empty() {
+            m.push(Mutn::BodyAttachedWithoutContentLength);
+            m.push(Mutn::BodyAttachedContentLengthZero);
+        }
         if !b.body.is_empty() {
             m.push(Mutn::BodyTruncate);
         }
@@ -475,6 +484,17 @@ fn apply(mu: &Mutn, r: &mut Req, body: &mut Vec<u8>, keys: &mut Vec<(String, Str
             } else {
                 return false;
             }
+        }
+        Mutn::BodyAttachedWithoutContentLength => {
+            body.extend_from_slice(b"body that was never signed");
+            r.remove_header("content-length");
+        }
+        Mutn::BodyAttachedContentLengthZero => {
+            body.extend_from_slice(b"body that was never signed");
+            if r.get_header("content-length").is_some() {
+                return false; // a signed content-length: changing it is a header mutation
+            }
+            r.headers.push(("content-length".into(), b"0".to_vec()));
         }
         Mutn::BodyTruncate => {
             return false; // changes the signed content-length too: covered by BodyByte + header-value mutations
